@@ -493,6 +493,7 @@ func (w *vestingWorld) txGens(weights map[string]int) []TxGen {
 	add("split", w.genSplit)
 	add("move", w.genMove)
 	add("delegate", w.genDelegate)
+	add("govDenom", w.genGovDenom)
 	if weights["sigCreateAccount"] > 0 {
 		add("sigCreateAccount", w.genSigCreateAccount)
 	}
@@ -579,4 +580,18 @@ func (w *vestingWorld) genSigCreateAccount(r *kernel.Run, rng *kernel.Rng) *kern
 	}
 	msg := &sigtypes.MsgCreateAccount{Creator: kernel.ActorBech(creator), AccAddressString: target, PubKeyString: pk}
 	return msgTx(creator, msg, "sig")
+}
+
+// genGovDenom: governance (message router, gov authority) tries to change the vesting denomination. The module refuses
+// that while any pool exists; before the first pool it is a legitimate change and later pools live in the new denom.
+func (w *vestingWorld) genGovDenom(r *kernel.Run, rng *kernel.Rng) *kernel.Tx {
+	if !rng.P(0.3) {
+		return nil
+	}
+	denoms := append([]string{BondDenom}, w.ExtraDenoms...)
+	t := msgTx(w.Clients[0], &vtypes.MsgUpdateDenomParam{Authority: gov(), Denom: denoms[rng.Intn(len(denoms))]}, "direct")
+	if t != nil {
+		t.Note = "gov-denom-update"
+	}
+	return t
 }
